@@ -1,6 +1,7 @@
 """C15 - input coercion and input validation agree (structural clauses)."""
 from __future__ import annotations
 
+from rules import generic_rules as G
 from rules import coercion_rules as K
 from sa.loader import Repo
 from sa.report import Check
@@ -38,4 +39,9 @@ def run(check: Check, repo: Repo, tier: str) -> None:
     funcs.append(repo.func("utilities.value_to_literal", "default_scalar_value_to_literal"))
     K.bool_exclusion(check, repo, funcs)
     check.floor("BOOL-EXCLUSION", 4, "int acceptance tests")
+    G.sentinel_identity(check, [repo.mod(m) for m in ("utilities.coerce_input_value", "utilities.validate_input_value",
+                                                      "utilities.value_to_literal", "utilities.replace_variables",
+                                                      "utilities.ast_from_value", "utilities.value_from_ast_untyped",
+                                                      "type.scalars", "type.definition", "execution.values")])
+    check.floor("SENTINEL-IDENTITY", 20, "comparisons against Undefined on the coercion path")
     K.regex_fullmatch(check, repo, ["type.scalars", "utilities.value_to_literal", "utilities.ast_from_value"])
